@@ -48,7 +48,7 @@ SHRINK_FIELDS = ["mutations"]
 _CHILDREN: List[Child] = []
 
 NEAR_MISS = ["cahce", "k_retreival", "enabeld", "t22", "sim_treshold", "budgest", "polcy", "max_worker", "alpha_sim ", "Tiers", "xyz", ""]
-BAD_LEAVES: List[Any] = ["str", "", [], {}, None, True, -1, 0, 10**30, 10**400, -10**400, {"$pow10": 5000}, {"$yaml": "date"}, {"$yaml": "binary"}, {"$yaml": "set"}, {"$yaml": "datetime"}, 1e308, -1e308, float("nan"), float("inf"), float("-inf"), [1, 2], {"x": 1}, "1", "true", 3.7,
+BAD_LEAVES: List[Any] = ["str", "nan", "NaN", " nan ", "-nan", "inf", "-Infinity", "1e999", "", [], {}, None, True, -1, 0, 10**30, 10**400, -10**400, {"$pow10": 5000}, {"$yaml": "date"}, {"$yaml": "binary"}, {"$yaml": "set"}, {"$yaml": "datetime"}, 1e308, -1e308, float("nan"), float("inf"), float("-inf"), [1, 2], {"x": 1}, "1", "true", 3.7,
                         [[1]], [{}], [["t2:semantic"]], [None], [1.5, "x"], {"a": [1]}, [[]]]
 LIST_KNOBS = [(["t4", "cache", "namespaces"], ["t2:semantic"]), (["t2", "tiers"], ["exact_semantic", "archive"]),
               (["t2", "lancedb"], {"partitions": {"by": ["owner", "quarter"], "shard_order": "lex"}}),
@@ -156,6 +156,14 @@ def generate(seed: int, tier: str) -> Dict[str, Any]:
             muts.append({"kind": "set", "path": list(r.choice(secs)) + [r.choice([5, None, True, 1.5])], "value": r.choice([1, {}])})
         else:
             muts.append({"kind": "set", "path": [r.choice(["t1", "t2", "t3", "t4", "graph", "scheduler", "perf"])], "value": r.choice([None, [], "x", 5, {}])})
+    if r.chance(0.08):
+        # not-a-number spelled as text on a numeric knob (what YAML 1.1 makes of a bare `nan`): coercion turns it into a float NaN
+        # after the point where the written-out NaN is caught
+        # (one knob per program - a second one with a two-sided range would get the whole file rejected; half of the time a knob
+        # whose documented range is open on one side)
+        open_ended = [["t4", "delta_norm_cap_l2"], ["t2", "hybrid", "max_bonus"], ["graph", "decay", "floor"], ["t2", "quality", "fusion", "alpha_semantic"]]
+        q = r.choice(open_ended) if r.chance(0.5) else list(r.choice(_numeric_paths()))
+        muts.append({"kind": "set", "path": list(q), "value": r.choice(["nan", "NaN", " nan ", "-nan"])})
     if r.chance(0.08):
         # the same offence twice in one section: the validator then says the same sentence twice, and every front door has to
         # pass both on
